@@ -497,14 +497,28 @@ func c20RunScenario(c *core.Ctx, sc c20Scenario, bound int, maxExec int64) core.
 		}
 		return fns
 	}
-	var fail string
+	var fail, hungUncontrolled string
 	outcomes := map[string]bool{}
 	var firstObs string
 	nExec := 0
 	check := func(x *sched.Exec) bool {
 		nExec++
+		if x.Deadlock != "" {
+			fail = fmt.Sprintf("deadlock under schedule %s (%d preemptions): no goroutine can proceed: %s", schedStr(x.Choices), x.PreemptionsBefore(len(x.Points)), x.Deadlock)
+			return false
+		}
+		if x.ChildPanic != "" {
+			fail = fmt.Sprintf("a goroutine started by the library panicked under schedule %s: %s", schedStr(x.Choices), x.ChildPanic)
+			return false
+		}
 		if x.Hung {
-			fail = fmt.Sprintf("execution did not finish (deadlock or hang) under schedule %s", schedStr(x.Choices))
+			// a thread blocked in something the scheduler does not intercept (a channel
+			// operation, a timer). Decide on real goroutines whether the scenario can finish.
+			if c20FreeRunFinishes(sc, bs, 20*time.Second) {
+				hungUncontrolled = fmt.Sprintf("schedule %s: a thread blocked after %s in an operation the scheduler does not intercept (channel / timer); the same bodies finish on free-running goroutines", schedStr(x.Choices), x.HungSite)
+			} else {
+				fail = fmt.Sprintf("execution did not finish (deadlock or hang) under schedule %s, last scheduling point %s; the same bodies do not finish on free-running goroutines either", schedStr(x.Choices), x.HungSite)
+			}
 			return false
 		}
 		var all []string
@@ -545,6 +559,16 @@ func c20RunScenario(c *core.Ctx, sc c20Scenario, bound int, maxExec int64) core.
 	if err != nil {
 		return core.Fail("HARNESS: %v", err)
 	}
+	if x1.Hung || x1.Deadlock != "" || x1.ChildPanic != "" {
+		check(x1)
+		if hungUncontrolled != "" {
+			c.P.Capped = true
+			c.P.CapNote = fmt.Sprintf("scenario %s not explorable: %s", sc.name(bs), hungUncontrolled)
+			c.Count("scenarios_not_explorable_uninstrumented_blocking", 1)
+			return core.Verdict{OK: true, Skip: true, Detail: hungUncontrolled}
+		}
+		return core.Verdict{Detail: fmt.Sprintf("scenario %s: %s", sc.name(bs), fail), Data: map[string]any{"scenario": sc.name(bs), "bound": 0}}
+	}
 	render := func(x *sched.Exec, strip bool) string {
 		var b strings.Builder
 		for _, r := range x.Results {
@@ -584,7 +608,17 @@ func c20RunScenario(c *core.Ctx, sc c20Scenario, bound int, maxExec int64) core.
 	for bound > 1 && est(bound) > float64(maxExec) {
 		bound--
 	}
-	st, err := sched.Explore(mk, bound, 4*maxExec, 20*time.Second, c.Deadline, check)
+	// wall budget per scenario (a tree whose library starts goroutines of its own has far
+	// more schedules): bounds completed within it are reported, the run stays green
+	budget := 25 * time.Second
+	if c.Thorough() {
+		budget = 12 * time.Minute
+	}
+	dl := time.Now().Add(budget)
+	if !c.Deadline.IsZero() && c.Deadline.Before(dl) {
+		dl = c.Deadline
+	}
+	st, err := sched.Explore(mk, bound, 4*maxExec, 20*time.Second, dl, check)
 	if err != nil {
 		return core.Fail("HARNESS: %v", err)
 	}
@@ -604,16 +638,48 @@ func c20RunScenario(c *core.Ctx, sc c20Scenario, bound int, maxExec int64) core.
 		c.P.Capped = true
 		why := fmt.Sprintf("execution cap %d", 4*maxExec)
 		if st.TimedOut {
-			why = "time cap of this run"
+			why = "time budget of this scenario / run"
 		}
 		c.P.CapNote = fmt.Sprintf("scenario %s: %s hit at preemption bound %d (bounds below it complete)", sc.name(bs), why, st.BoundDone+1)
 	}
 	c.Outcome(fmt.Sprintf("%s: bound %d, %d schedules, %d points, %d distinct outcome(s)", sc.name(bs), st.BoundDone, total, st.MaxPoints, len(outcomes)))
 	c.Count(fmt.Sprintf("scenarios_completed_at_preemption_bound_%d", st.BoundDone), 1)
+	if hungUncontrolled != "" {
+		// not a verdict on the property: the scenario cannot be explored under the
+		// controlled scheduler; the free-running -race pass still covers these bodies
+		c.P.Capped = true
+		c.P.CapNote = fmt.Sprintf("scenario %s not explorable: %s", sc.name(bs), hungUncontrolled)
+		c.Count("scenarios_not_explorable_uninstrumented_blocking", 1)
+		return core.Verdict{OK: true, Skip: true, Detail: hungUncontrolled}
+	}
 	if fail != "" {
 		return core.Verdict{Detail: fmt.Sprintf("scenario %s: %s", sc.name(bs), fail), Data: map[string]any{"scenario": sc.name(bs), "bound": bound}}
 	}
 	return core.Verdict{OK: true, Data: map[string]any{"scenario": sc.name(bs), "schedules_per_bound": st.PerBound, "points_per_execution": st.MaxPoints, "distinct_outcomes": len(outcomes), "bound_completed": st.BoundDone}}
+}
+
+// c20FreeRunFinishes: the scenario's bodies on real goroutines (no scheduler, no
+// hook handler) on a fresh fixture; true if all of them return within the limit.
+func c20FreeRunFinishes(sc c20Scenario, bs []c20Body, limit time.Duration) bool {
+	tensor.VerifSetHandler(nil)
+	defer tensor.VerifSetHandler(sched.Point)
+	f := c20NewFixture()
+	done := make(chan struct{}, len(sc.bodies))
+	for _, bi := range sc.bodies {
+		go func(bi int) {
+			defer func() { recover(); done <- struct{}{} }()
+			bs[bi].run(f, func() { runtime.Gosched() })
+		}(bi)
+	}
+	deadline := time.After(limit)
+	for range sc.bodies {
+		select {
+		case <-done:
+		case <-deadline:
+			return false
+		}
+	}
+	return true
 }
 
 // c20CheckDraws: the multiset union of all threads' draws equals the prefix of
@@ -640,6 +706,17 @@ func checkC20(c *core.Ctx) {
 	}
 	c.CaseTimeout = 30 * time.Minute
 	bs := c20Bodies()
+	if syncShimInstalled {
+		c.Count("sync_shim_installed", 1)
+		if c.Shard == 0 && c.Only == "" {
+			msg, n := shimSelftest()
+			if msg != "" {
+				c.Broken("scheduler / sync-shim selftest failed: %s", msg)
+				return
+			}
+			c.Count("shim_selftest_schedules", n)
+		}
+	}
 	for _, sc := range c20Scenarios(c.Thorough()) {
 		if c.Expired() {
 			break
@@ -680,7 +757,18 @@ func cmdRacePass(args []string) int {
 					}(bi)
 				}
 				close(start)
-				wg.Wait()
+				fin := make(chan struct{})
+				go func() { wg.Wait(); close(fin) }()
+				select {
+				case <-fin:
+				case <-time.After(3 * time.Minute):
+					// the bodies contain no waiting loops and finish in milliseconds
+					fmt.Printf("racepass HANG: pair %s||%s (3 goroutines on fresh shared tensors) did not finish within 3 minutes; goroutines:\n", bs[i].name, bs[j].name)
+					buf := make([]byte, 1<<16)
+					buf = buf[:runtime.Stack(buf, true)]
+					fmt.Printf("%s\n", buf)
+					return 3
+				}
 			}
 			pairs++
 			fmt.Printf("racepass pair %s||%s done\n", bs[i].name, bs[j].name)
@@ -711,13 +799,13 @@ func c20Post(tier string, seed int64, m *core.Part) {
 	cmd := exec.CommandContext(ctx, exe, "racepass", tier)
 	cmd.Env = append(os.Environ(), "GORACE=halt_on_error=0 exitcode=0 log_path="+logBase)
 	out, err := cmd.CombinedOutput()
-	if ctx.Err() != nil {
+	if ctx.Err() != nil || strings.Contains(string(out), "racepass HANG") {
 		// the bodies have no loops that wait: not finishing means goroutines block each other
 		dir := filepath.Join(core.VerifDir, "replays", "C20")
 		os.MkdirAll(dir, 0o755)
 		path := filepath.Join(dir, "race_pass_hang.txt")
 		os.WriteFile(path, out, 0o644)
-		m.Violations = append(m.Violations, core.ViolationRec{CaseID: "racepass", Detail: fmt.Sprintf("the free-running pass (thread bodies on real goroutines) did not finish within %v: goroutines block each other (deadlock). Last progress: %s", limit, lastLine(string(out))), Replay: path})
+		m.Violations = append(m.Violations, core.ViolationRec{CaseID: "racepass", Detail: fmt.Sprintf("the free-running pass (thread bodies on real goroutines) did not finish: goroutines block each other (deadlock). %s", hangLine(string(out))), Replay: path})
 		return
 	}
 	if err != nil || !strings.Contains(string(out), "racepass complete") {
@@ -769,6 +857,15 @@ func c20Post(tier string, seed int64, m *core.Part) {
 		}
 		m.Violations = append(m.Violations, core.ViolationRec{CaseID: "racepass", Detail: fmt.Sprintf("%d data race report(s) from the free-running -race pass; first:\n%s", n, first), Replay: path})
 	}
+}
+
+func hangLine(s string) string {
+	for _, l := range strings.Split(s, "\n") {
+		if strings.HasPrefix(l, "racepass HANG") {
+			return l
+		}
+	}
+	return "Last progress: " + lastLine(s)
 }
 
 func lastLine(s string) string {
